@@ -116,7 +116,7 @@ func runCheck(id string, o checkOpts) (*checkResult, error) {
 	}
 	// lemmas tagged with the property
 	e.VerifyLemmas(id)
-	cfg := eng.SolverCfg{Timeout: o.timeout, Parallel: 7, Seed: o.seed, KeepDir: os.Getenv("GOVC_KEEP")}
+	cfg := eng.SolverCfg{Timeout: o.timeout, Parallel: 5, Seed: o.seed, KeepDir: os.Getenv("GOVC_KEEP")}
 	if o.tier == "thorough" {
 		cfg.Confirm = true
 	}
@@ -186,7 +186,7 @@ func cmdCheck(args []string) {
 	if s := os.Getenv("VERIF_SEED"); s != "" {
 		seed, _ = strconv.Atoi(s)
 	}
-	o := checkOpts{repo: *repo, verif: *verif, tier: *tier, seed: seed, timeout: 20 * time.Second}
+	o := checkOpts{repo: *repo, verif: *verif, tier: *tier, seed: seed, timeout: 30 * time.Second}
 	if *tier == "thorough" {
 		o.timeout = 90 * time.Second
 	}
